@@ -57,7 +57,7 @@ class Gen:
         for n in self.around(L):
             self.add("ml", "ml asc=%d rep=%d%s" % (n, self.r.randint(0, 1), self.L("YR_MAX_STRING_MATCHES")))
         if L <= 64:
-            for _ in range(120 if self.tier == "quick" else 3000):
+            for _ in range(300 if self.tier == "quick" else 3000):
                 k = self.r.choice([0, 1, L - 1, L, L + 1, L + 4, self.r.randint(0, 3 * L)])
                 dom = self.r.choice([3, L, L + 2, 3 * L])
                 offs = ",".join("%d:%d" % (self.r.randint(0, dom), self.r.randint(1, 5)) for _ in range(k)) or "-"
@@ -67,7 +67,7 @@ class Gen:
         L = self.c["RE_MAX_FIBERS"]
         for n in self.around(L):
             self.add("fib", "fib n=%d%s" % (n, self.L("RE_MAX_FIBERS")))
-        for _ in range(40 if self.tier == "quick" else 1000):
+        for _ in range(100 if self.tier == "quick" else 1000):
             k = self.r.randint(0, 4 * min(L, 40))
             pc = self.r.choice([0.5, 0.7, 0.9])
             ops = "".join("c" if self.r.random() < pc else "r" for _ in range(k))
@@ -180,7 +180,7 @@ class Gen:
             txt, _ = self.re_text(ast)
             self.add("rs", "compile m=resplit ast=%s text=%s%s" % (ast, hx("rule r { strings: $a = /%s/ condition: $a }" % txt), lk))
         # random expressions of the fragment: code size and split count must agree exactly
-        for _ in range(250 if self.tier == "quick" else 6000):
+        for _ in range(600 if self.tier == "quick" else 6000):
             ast = self.re_ast(self.r.randint(1, 5))
             if ast == "y":
                 continue
@@ -203,7 +203,7 @@ class Gen:
             return "(" * d + ")" * d
 
         shapes = [force(d) for d in self.around(L, far=L + 5)] + [force(L) + force(L), force(1) + force(L + 1), force(L + 1) + force(1)]
-        for _ in range(40 if self.tier == "quick" else 600):
+        for _ in range(100 if self.tier == "quick" else 600):
             md = self.r.choice([L - 1, L, L, L + 1, L + 2])
             s = dyck(max(md, 1))
             if self.r.random() < 0.5:
@@ -280,7 +280,7 @@ class Gen:
             k = 1 if top else 0
             for d in self.around(L - k, far=2 * L):
                 shapes.append((d, top, None))
-        for _ in range(12 if self.tier == "quick" else 200):
+        for _ in range(30 if self.tier == "quick" else 200):
             d = self.r.choice([1, 2, L - 1, L, L + 1])
             top = self.r.choice([None, "main.yar"])
             circ = self.r.choice([None, None, self.r.randint(1, max(d, 1))])
@@ -305,7 +305,7 @@ class Gen:
             return
         cfgs = [(M, n) for M in (0, 1, 2, 5, 16) for n in self.around(M, far=3 * M + 10)]
         cfgs += [(self.c["DEFAULT_MAX_STRINGS_PER_RULE"], n) for n in self.around(self.c["DEFAULT_MAX_STRINGS_PER_RULE"], far=None)[:3]]
-        for _ in range(10 if self.tier == "quick" else 200):
+        for _ in range(25 if self.tier == "quick" else 200):
             M = self.r.randint(0, 40)
             cfgs.append((M, self.r.choice([M - 1, M, M + 1, self.r.randint(0, 60)])))
         for M, n in cfgs:
@@ -335,7 +335,7 @@ class Gen:
     def stack(self):
         if self.explicit:
             return
-        for _ in range(50 if self.tier == "quick" else 800):
+        for _ in range(120 if self.tier == "quick" else 800):
             S = self.r.choice([0, 1, 2, 3, 4, 5, 8, 13, 64, 300])
             # random expression tree over `filesize` and `+`; right-nesting makes the stack deep
             need = self.r.choice([S - 1, S, S + 1, S + 2, self.r.randint(1, S + 6)])
@@ -377,7 +377,7 @@ class Gen:
             rules = [("a1", "$a", "abcd", 1), ("b1", "$b", "abcd", 2), ("b2", "$c", "wxyz", L)]
             self._match_case(rules, [("wxyz", L), ("abcd", 5)], "c", lk, 1)
             return
-        for _ in range(150 if self.tier == "quick" else 4000):
+        for _ in range(400 if self.tier == "quick" else 4000):
             nr = self.r.randint(1, 5)
             rules = []
             for i in range(nr):
